@@ -370,7 +370,7 @@ def strip_model_log(mlog):
         if t == "call":
             out.append(["call", en[1], en[2], en[3], en[4]])
         elif t in ("opt", "sched"):  # where the data are shuffled (RNG use) is not part of the event protocol: not compared
-            out.append([t])
+            out.append([t])  # ("sched" entries are projected out of the compared log by the caller: only their number is judged)
     return out
 
 
@@ -454,20 +454,32 @@ def one_call(ctx, case, kind, st, rng, hold, objs, run, r_idx, sess, m, specs):
     sess["container"], sess["container_key"] = cb_arg, key
     if pre is not None:
         st.stop_training = pre
-    # refused stop requests (non-bool values raise ValueError) must leave the flag exactly as it was
+    # "the request persists": an assignment to `stop_training` that RAISES (whatever the exception type) must leave the flag, as read
+    # through the public property, as it was.  Which objects are refused and with which exception is NOT part of the property (a setter
+    # that accepts np.True_ or 1 as a request, or raises TypeError, violates nothing): an accepted assignment is only counted and undone
+    # with a plain bool.  Only the public attribute is read (no private name).  The behaviour is judged by the call that follows (`flag at
+    # entry`, protocol of the run).
     if run.get("bad_stop", True):
-        before_flag = st._stop_training if hasattr(st, "_stop_training") else st.stop_training
-        refused_ok = True
+        before_flag = st.stop_training
+        refused_ok, first_bad = True, None
         for bad in (1, 0, "yes", None, np.True_, np.False_, [True], np.array(True), torch.tensor(False), np.float64(1.0) > 0.5):
+            raised = None
             try:
                 st.stop_training = bad
-                refused_ok = False
-            except ValueError:
-                pass
-            refused_ok = refused_ok and (st.stop_training is before_flag or st.stop_training == before_flag and isinstance(st.stop_training, bool))
-        ctx.oracle("a refused stop request (non-bool) raises ValueError and leaves the flag unchanged", bool(refused_ok), ctx.current_case,
-                   detail={"flag_before": bool(before_flag), "flag_after": repr(st.stop_training)}, sig=f"{kind}/refused-stop-request",
-                   theorem="C12_sticky / C12_stopped_run_is_noop (the flag is only changed by a valid request)")
+            except Exception as e:  # noqa: BLE001  any exception type counts as a refusal
+                raised = type(e).__name__
+            ctx.count(f"stop_training={type(bad).__name__}:{'refused/' + raised if raised else 'accepted'}")
+            if raised is None:
+                st.stop_training = bool(before_flag)  # accepted: no verdict; the caller restores its flag with a plain bool
+                continue
+            now = st.stop_training
+            same = now is before_flag or bool(now) == bool(before_flag)  # what `fit` and every handler read: the truth value
+            if not same and first_bad is None:
+                first_bad = {"assigned": repr(bad), "raised": raised, "flag_before": repr(before_flag), "flag_after": repr(now)}
+            refused_ok = refused_ok and bool(same)
+        ctx.oracle("an assignment to stop_training that raises leaves the flag (public property) unchanged", bool(refused_ok), ctx.current_case,
+                   detail=first_bad, sig=f"{kind}/refused-stop-request",
+                   theorem="(oracle only: the setter is not modelled; C12_sticky / C12_session_stopped take the flag at entry as given)")
     # ---- the option objects of this call
     fl, it = sess.get("fl") or qc.Flags(None), sess.get("it") or qc.Ints(None)
     fam = int_family(getattr(it, "iseed", None))
@@ -685,16 +697,9 @@ def one_call(ctx, case, kind, st, rng, hold, objs, run, r_idx, sess, m, specs):
     # batches per epoch: every epoch that is not cut short by a stop has ceil(N / pos_batch_size) optimizer steps
     # (epochs are delimited by the scheduler steps, or by the epoch-end calls of a callback that sees every event; without either the
     # total number of optimizer steps above is the only observation)
+    # (the scheduler steps are NOT used as epoch delimiters: the property fixes how often the scheduler is advanced, not where)
     per_epoch = None
-    if sched:
-        per_epoch, cur = [], 0
-        for en in rec.log:
-            if en[0] == "opt":
-                cur += 1
-            elif en[0] == "sched":
-                per_epoch.append(cur)
-                cur = 0
-    elif L:
+    if L:
         per_epoch, cur = [], 0
         for en in rec.log:
             if en[0] == "opt":
@@ -708,7 +713,9 @@ def one_call(ctx, case, kind, st, rng, hold, objs, run, r_idx, sess, m, specs):
         full = per_epoch[:-1] if exp_stop and not stop0 else per_epoch
         ctx.oracle("every uninterrupted epoch has ceil(N / pos_batch_size) batches", all(x == nb for x in full) and len(per_epoch) == begun,
                    case, detail={"per_epoch": per_epoch, "expected": nb}, sig=f"{sig}/batches-per-epoch", theorem="C12_batches_per_epoch")
-    # scheduler position: after the last optimizer step of the epoch and before the epoch-end calls
+    # scheduler POSITION inside the epoch (the code: after the last batch-end, before the epoch-end handlers): neither C12 nor C06 ("advanced
+    # exactly once per epoch") fixes it -- `on_epoch_end(...); scheduler.step()` is a harmless rewrite.  Counted only, never judged; the number
+    # of scheduler steps is judged above (sched-count) and in the `final` point.
     if sched and L:
         ok_pos = True
         for k, en in enumerate(rec.log):
@@ -718,11 +725,12 @@ def one_call(ctx, case, kind, st, rng, hold, objs, run, r_idx, sess, m, specs):
                 if not (before and before[0] == "call" and before[2][0] == ("be" if nb else "es") and after and after[0] == "call"
                         and after[2][0] == "ee" and after[2][1] == before[2][1]):
                     ok_pos = False
-        ctx.oracle("scheduler step sits between the last batch-end and the epoch-end", ok_pos, case,
-                   sig=f"{sig}/sched-position", theorem="C12_scheduler_once_per_epoch")
+        ctx.count(f"sched_position_between_last_batch_end_and_epoch_end={ok_pos}")
+    log_with_sched = rec.log
+    rec.log = [en for en in rec.log if en[0] != "sched"]
     if stop0:
-        ctx.oracle("stopped run is a no-op", rec.log == [] and h_after == h_before and final["stop"], case,
-                   detail={"log": rec.log[:10]}, sig=f"{sig}/noop", theorem="C12_stopped_run_is_noop, C12_session_stopped")
+        ctx.oracle("stopped run is a no-op", log_with_sched == [] and h_after == h_before and final["stop"], case,
+                   detail={"log": log_with_sched[:10]}, sig=f"{sig}/noop", theorem="C12_stopped_run_is_noop, C12_session_stopped")
     ctx.count(f"stdout_lines(time={timer})={min(printed_lines, 3)}")
     # ---------------- correspondence with the model (QV.Train.session; this call's entry)
     if m is not None:
@@ -740,8 +748,11 @@ def one_call(ctx, case, kind, st, rng, hold, objs, run, r_idx, sess, m, specs):
             if not L:
                 ctx.point("calls", "property", [[c[1], c[2]] for c in calls], m["calls"], case, exact=True, sig=f"{sig}/calls",
                           theorem="C12_lambda_dispatch, C12_dispatch_order, C12_callbacks_container")
-        ctx.point("log", "property", rec.log, strip_model_log(m["log"]), case, exact=True, sig=f"{sig}/log",
-                  theorem="C12_param_window, C12_sticky, C12_scheduler_once_per_epoch, C12_batches_per_epoch")
+        mlog = strip_model_log(m["log"])
+        ctx.point("log", "property", rec.log, [en for en in mlog if en[0] != "sched"], case, exact=True, sig=f"{sig}/log",
+                  theorem="C12_param_window, C12_sticky, C12_batches_per_epoch")
+        if sched:  # where the scheduler steps sit relative to the handler calls: informational
+            ctx.count(f"sched_position_as_in_model={log_with_sched == mlog}")
         ctx.point("final", "property", final, {"stop": m["stop"], "ver": m["ver"], "sched": m["sched"]}, case, exact=True,
                   sig=f"{sig}/final", theorem="C12_sticky, C12_param_window, C12_scheduler_once_per_epoch, C12_stopped_run_is_noop, C12_session_stopped")
         if full:
@@ -1017,17 +1028,20 @@ def ctor_case(ctx, case):
     err, cb = None, None
     try:
         cb = LambdaCallback(**{SLOT_NAME[tag]: f for tag, f in zip(SLOTS, fns)})
-    except (ValueError, TypeError) as e:
-        err = type(e).__name__  # the message text is not part of the property
+    except Exception as e:  # noqa: BLE001
+        err = type(e).__name__  # neither the type nor the message is part of the property
     sig = "lambda/ctor"
     bad = sum(1 for tag, a in zip(SLOTS, args) if a is not None and (a[0] == "nc" or a[2] != SLOT_ARGS[tag]))
     ctx.count(f"ctor:{'ok' if exp is None else exp}")
     ctx.count(f"ctor:offending_args={min(bad, 2)}{'+' if bad > 2 else ''}")
     for a in args:
         ctx.count("ctor:arg=" + ("None" if a is None else "non-callable" if a[0] == "nc" else f"fn/{a[1]}"))
-    ctx.oracle("LambdaCallback(...) raises exactly for the first argument that is not None / not a callable with the event's number of "
-               "parameters (TypeError if not callable, ValueError if the count is wrong)", err == exp, case,
-               detail={"impl": err, "expected": exp}, sig=f"{sig}/validation", theorem="C12_lambda_init")
+    # The property text does not say that unsuitable handlers are rejected (nor how): whether the constructor raises, with which exception
+    # type and for which argument first is only COUNTED (no verdict).  What is judged is what the property names: an accepted object
+    # delivers each event to the caller's function for that slot.
+    ctx.count(f"ctor:rejected={err is not None},reference_rejects={exp is not None}")
+    if err is not None or exp is not None:
+        ctx.count(f"ctor:exception_type impl={err} reference(first offending argument)={exp}")
     if cb is not None and exp is None:
         # behaviour, not identity: calling cb.on_<slot>(event's arguments) runs the caller's function for THAT slot exactly once with
         # those arguments (forms whose signature accepts the positional call) / does nothing and returns None for a slot left None
@@ -1049,16 +1063,17 @@ def ctor_case(ctx, case):
                     ok_slots = False
                 ok_slots = ok_slots and received == [[j, SLOT_ARGS[tag]]]
                 impl_h.append(received[0][0] if received else "?")
-            else:  # kw / kwonly / pkw forms cannot be called positionally with the event's arguments: only their acceptance is judged
+            else:  # kw / kwonly / pkw forms cannot be called positionally with the event's arguments: only their acceptance is counted
                 impl_h.append(j)
-        ctx.oracle("each slot runs the caller's function for THAT slot; a slot left None is a no-op accepting the event's arguments",
-                   ok_slots and ok_noop and isinstance(cb, CallbackBase) and during_ctor == [], case,
+        ctx.count(f"ctor:isinstance(CallbackBase)={isinstance(cb, CallbackBase)}")
+        ctx.oracle("each slot runs the caller's function for THAT slot; a slot left None is a no-op accepting the event's arguments; no "
+                   "handler runs during construction", ok_slots and ok_noop and during_ctor == [], case,
                    detail={"slots_ok": ok_slots, "noop_ok": ok_noop, "calls_during_construction": during_ctor[:4]},
-                   sig=f"{sig}/slots", theorem="C12_lambda_init")
+                   sig=f"{sig}/slots", theorem="C12_lambda_init, C12_lambda_dispatch")
     if ctx.driver is not None:
         m = ctx.driver.call("c12.lambda_init", args=margs)
-        ctx.point("constructor outcome (exception type)", "property", err, m.get("error"), case, exact=True,
-                  sig=f"{sig}/outcome", theorem="C12_lambda_init")
+        ctx.count(f"ctor:model_agrees(rejected-or-not)={(err is not None) == (m.get('error') is not None)}")
+        ctx.count(f"ctor:model_agrees(exception type)={err == m.get('error')}")
         if cb is not None and exp is None and "handlers" in m:
             ctx.point("function run per slot", "property", impl_h, m["handlers"], case, exact=True, sig=f"{sig}/handlers",
                       theorem="C12_lambda_init")
